@@ -2904,6 +2904,21 @@ func canonForm(m *evalModel) string {
 			if ta, ok := x.Tuple.(*ssa.TypeAssert); ok {
 				return find(ta, depth+1)
 			}
+		case *ssa.Call:
+			if head := headNameArg(x); head != nil {
+				if k := m.e.keyOf(head); k.Root != nil && strings.HasSuffix(k.Path, ".Val[0]") && strings.Count(k.Path, "[") == 1 {
+					return k.Root
+				}
+				if ld, ok := head.(*ssa.UnOp); ok {
+					if ia, ok := ld.X.(*ssa.IndexAddr); ok {
+						if f, ok := ia.X.(*ssa.Field); ok {
+							if ta, ok := f.X.(*ssa.TypeAssert); ok {
+								return ta.X
+							}
+						}
+					}
+				}
+			}
 		}
 		return nil
 	}
